@@ -127,15 +127,59 @@ struct Stats {
     rejected: usize,
     splitting: usize,
     keyword_templates: usize,
+    preludes: usize,
 }
 
 fn hx(b: &[u8]) -> String {
     if b.is_empty() { "-".into() } else { hex(b) }
 }
 
-fn emit_case(out: &mut impl Write, cid: &str, lang: &str, parser: &mut Parser, doc: &[u8], bs: &[(usize, usize)], st: &mut Stats) {
+/// The same parser object is used for ANOTHER (document, range list) pair first, and the ranges are NOT cleared
+/// in between: either the same byte offsets over a document with a different line structure (so only the POINTS of
+/// the two lists differ), or an unrelated list over the same document.
+fn pick_prelude(rng: &mut Rng, doc: &[u8], bs: &[(usize, usize)]) -> Option<(Vec<u8>, Vec<(usize, usize)>)> {
+    if bs.is_empty() || !rng.chance(1, 3) {
+        return None;
+    }
+    if rng.chance(2, 3) {
+        // same offsets, other points: toggle blanks and newlines (same length)
+        let mut d: Vec<u8> = doc.to_vec();
+        let mut changed = false;
+        for b in d.iter_mut() {
+            if (*b == b' ' || *b == b'\n') && rng.chance(1, 2) {
+                *b = if *b == b' ' { b'\n' } else { b' ' };
+                changed = true;
+            }
+        }
+        if !changed && !d.is_empty() {
+            d[0] = if d[0] == b'\n' { b' ' } else { b'\n' };
+        }
+        Some((d, bs.to_vec()))
+    } else {
+        let n = doc.len();
+        let a = rng.below(n + 1);
+        let b = a + rng.below(n + 1 - a);
+        Some((doc.to_vec(), vec![(a, b)]))
+    }
+}
+
+fn emit_case_h(out: &mut impl Write, cid: &str, lang: &str, parser: &mut Parser, doc: &[u8], bs: &[(usize, usize)], st: &mut Stats, rng: &mut Rng) {
+    let pre = pick_prelude(rng, doc, bs);
+    emit_case(out, cid, lang, parser, doc, bs, st, pre.as_ref().map(|(d, b)| (d.as_slice(), b.as_slice())));
+}
+
+fn emit_case(out: &mut impl Write, cid: &str, lang: &str, parser: &mut Parser, doc: &[u8], bs: &[(usize, usize)], st: &mut Stats, pre: Option<(&[u8], &[(usize, usize)])>) {
     let ranges = mk_ranges(doc, bs);
-    writeln!(out, "spec {cid} {lang} {} {}", hx(doc), fmt_bs(bs)).unwrap();
+    match pre {
+        Some((pd, pb)) => {
+            writeln!(out, "spec {cid} {lang} {} {} pre:{}:{}", hx(doc), fmt_bs(bs), hx(pd), fmt_bs(pb)).unwrap();
+            if parser.set_included_ranges(&mk_ranges(pd, pb)).is_ok() {
+                let _ = bounded_parse(parser, pd);
+                st.preludes += 1;
+            }
+        }
+        None => writeln!(out, "spec {cid} {lang} {} {}", hx(doc), fmt_bs(bs)).unwrap(),
+    }
     writeln!(out, "case {cid} {lang}").unwrap();
     writeln!(out, "doc {}", hx(doc)).unwrap();
     writeln!(out, "ranges {} {}", ranges.len(), ranges.iter().map(fmt_range).collect::<Vec<_>>().join(" ")).unwrap();
@@ -404,7 +448,7 @@ fn main() {
     let args: Vec<String> = std::env::args().collect();
     let out_path = args.get(1).expect("usage: c13 <ops-file> [--spec file] [lang...]").clone();
     let mut out = std::io::BufWriter::new(std::fs::File::create(&out_path).unwrap());
-    let mut st = Stats { cases: 0, accepted: 0, rejected: 0, splitting: 0, keyword_templates: 0 };
+    let mut st = Stats { cases: 0, accepted: 0, rejected: 0, splitting: 0, keyword_templates: 0, preludes: 0 };
     let run_specs = |src: &str, tag: &str, out: &mut std::io::BufWriter<std::fs::File>, st: &mut Stats| {
         for (i, line) in src.lines().enumerate() {
             if line.trim().is_empty() || line.starts_with('#') {
@@ -424,7 +468,11 @@ fn main() {
                 let doc = if parts[1] == "-" { vec![] } else { unhex(parts[1]) };
                 let mut parser = Parser::new();
                 parser.set_language(&b.language).unwrap();
-                emit_case(out, &format!("{}-{tag}{i}", parts[0]), parts[0], &mut parser, &doc, &bs, st);
+                let pre: Option<(Vec<u8>, Vec<(usize, usize)>)> = parts.get(3).and_then(|x| x.strip_prefix("pre:")).and_then(|x| {
+                    let (d, r) = x.split_once(':')?;
+                    Some((if d == "-" { vec![] } else { unhex(d) }, parse_bs(r)?))
+                });
+                emit_case(out, &format!("{}-{tag}{i}", parts[0]), parts[0], &mut parser, &doc, &bs, st, pre.as_ref().map(|(d, b)| (d.as_slice(), b.as_slice())));
             }
         }
     };
@@ -473,7 +521,7 @@ fn main() {
                     if let Some((doc, bs)) = keyword_template(&mut rng, &text, &toks, &bounds, &b.grammar_json) {
                         no += 1;
                         st.keyword_templates += 1;
-                        emit_case(&mut out, &format!("{id}-{no}"), &id, &mut parser, &doc, &bs, &mut st);
+                        emit_case_h(&mut out, &format!("{id}-{no}"), &id, &mut parser, &doc, &bs, &mut st, &mut rng);
                     }
                 }
             }
@@ -481,10 +529,10 @@ fn main() {
                 no += 1;
                 if l % 2 == 1 && d % 3 != 2 {
                     let (doc, bs) = templated(&mut rng, &text, &bounds);
-                    emit_case(&mut out, &format!("{id}-{no}"), &id, &mut parser, &doc, &bs, &mut st);
+                    emit_case_h(&mut out, &format!("{id}-{no}"), &id, &mut parser, &doc, &bs, &mut st, &mut rng);
                 } else {
                     let bs = random_range_list(&mut rng, &text, &bounds);
-                    emit_case(&mut out, &format!("{id}-{no}"), &id, &mut parser, &text, &bs, &mut st);
+                    emit_case_h(&mut out, &format!("{id}-{no}"), &id, &mut parser, &text, &bs, &mut st, &mut rng);
                 }
             }
         }
